@@ -74,7 +74,7 @@ def construction(rep, strings, flags, specials):
     for fs in words(flags["letters"], flags["maxlen"]):
         extras.append({"p": [97], "fl": "".join(chr(c) for c in fs), "flu": fs, "uncaught": False})
     for s in specials:
-        extras.append({"p": s["head"] + s["unit"] * s["count"] + s["tail"], "expect": s["expect"], "name": s["name"], "uncaught": True, "wall": 4.0,
+        extras.append({"p": s["head"] + s["unit"] * s["count"] + s["tail"], "expect": s["expect"], "name": s["name"], "uncaught": True, "wall": 120.0,
                        "nolit": s["name"].startswith("quant-huge")})
     rep.spaces.append({"space": "flag strings up to length %d over %s; %d special constructions" % (flags["maxlen"], "".join(chr(c) for c in flags["letters"]), len(specials)),
                        "cases": len(extras), "complete": True})
